@@ -23,6 +23,31 @@ class _TargetTimeout(Exception):
     pass
 
 
+def tree_hash(src: Optional[str] = None) -> str:
+    """sha256 over (relative path, content) of every .py file of the package under verification."""
+    src = src or repo_src()
+    h = hashlib.sha256()
+    root = os.path.join(src, "hugr")
+    for dp, dn, fn in sorted(os.walk(root)):
+        dn.sort()
+        for f in sorted(fn):
+            if f.endswith(".py"):
+                p = os.path.join(dp, f)
+                h.update(os.path.relpath(p, root).encode())
+                h.update(open(p, "rb").read())
+    return h.hexdigest()
+
+
+def load_baseline(prop: str) -> dict:
+    """Obligations that were discharged on the tree the baseline was recorded on (committed file,
+    written by tools_baseline.py after a clean run; never written by a check)."""
+    p = os.path.join(VERIF, "baseline", "obligations.json")
+    if not os.path.exists(p):
+        return {}
+    d = json.load(open(p))
+    return {"tree": d.get("tree"), "proved": set(d.get("properties", {}).get(prop, []))}
+
+
 def _verify_one(args):
     files, target, tier, src = args
     sys.path.insert(0, VERIF)
@@ -210,6 +235,14 @@ class CheckResult:
 
     def finish(self) -> int:
         self.write_evidence()
+        if os.environ.get("VERIF_DUMP_OBLIGATIONS"):
+            by_name: dict = {}
+            for fr, o in self.all_obligations():
+                if o["kind"] == "property":
+                    by_name.setdefault(o["name"], []).append(o["status"] == "proved")
+            for n, oks in sorted(by_name.items()):
+                if all(oks):
+                    print("OBLIGATION-PROVED " + n)
         n, d, backends, ms = self.summarize()
         print(f"[{self.prop}] tier={self.tier} obligations={n} discharged={d} backends={backends} solver_ms={ms:.0f} "
               f"bounded_evals={sum(b.get('evaluations', 0) for b in self.bounded)} wall={time.time() - self.t0:.1f}s")
@@ -257,9 +290,13 @@ def replay_header(prop, what):
 
 
 def standard_flow(res: CheckResult, files: list[str], targets: list[str], concretize: Optional[Callable] = None,
-                  bounded_modules: Optional[list[tuple[str, int, int]]] = None, known: Optional[list[dict]] = None):
-    """prove; replay refutations; run bounded stand-ins; classify."""
+                  bounded_modules: Optional[list[tuple[str, int, int]]] = None, known: Optional[list[dict]] = None,
+                  more: Optional[list[tuple[list[str], list[str]]]] = None):
+    """prove; replay refutations; run bounded stand-ins; classify.
+    more: further (contract files, targets) groups proved with their own contract set."""
     reps = prove(files, targets, res.tier)
+    for (f2, t2) in (more or []):
+        reps += prove(f2, t2, res.tier)
     res.func_reports = reps
     known = known if known is not None else load_known_findings(res.prop)
     for fr in reps:
@@ -306,7 +343,17 @@ def standard_flow(res: CheckResult, files: list[str], targets: list[str], concre
             res.extra.setdefault("unproved_supporting", []).append(o["name"])
             print(f"UNPROVED supporting clause {o['name']} (refuted by {o['backend']})")
         else:
-            if is_prop:
+            base = load_baseline(res.prop)
+            if is_prop and base and o["name"] in base["proved"] and base["tree"] != tree_hash():
+                # the interface's rule for a failed obligation without a counterexample: this obligation was
+                # discharged on the tree the baseline was recorded on, the tree has changed since, and the
+                # verifier no longer accepts it (also not with the larger budget)
+                text = replay_header(res.prop, f"obligation {o['name']} was discharged on the baseline tree and is no longer accepted by the verifier ({o['status']}, {o['backend']})") + \
+                    f"\nprint('failed obligation: {o['name']}')\nprint('verifier output: status={o['status']} back ends={o['backend']} solver_ms={o['ms']}')\n" \
+                    f"print('baseline tree {base['tree'][:16]}, this tree {tree_hash()[:16]}')\nsys.exit(1)\n"
+                p = write_replay(res.prop, o["name"].replace("/", "__") + "@" + o.get("path", "") + "__undischarged", text)
+                res.violations.append({"clause": o["name"], "replay": p, "confirmed": False})
+            elif is_prop:
                 res.undecided.append(f"{o['name']} [{o['status']}]")
             else:
                 res.extra.setdefault("unproved_supporting", []).append(o["name"])
